@@ -271,7 +271,7 @@ fn word(s: &str, col_like: bool) -> Option<Vec<Step>> {
 
 fn drain_word(s: &str) -> Option<Vec<Step>> {
     let w = word(s, true)?;
-    if w.iter().all(|s| matches!(s, Step::Next | Step::Back | Step::Len | Step::Hint)) {
+    if w.iter().all(|s| matches!(s, Step::Next | Step::Back | Step::Len | Step::Hint | Step::Nth(_) | Step::NthBack(_))) {
         Some(w)
     } else {
         None
